@@ -248,8 +248,9 @@ impl fmt::Display for RichError {
                     ),
                 };
                 write!(f, "{:width$} |", " ", width = line_num_width)?;
-                write!(f, "{:width$}", " ", width = underline_start)?;
-                write!(f, "{:^<width$} ", "", width = underline_length)?;
+                // Columns are not bounded: a width argument beyond `u16::MAX` makes `write!` panic
+                write!(f, "{}", " ".repeat(underline_start.max(1)))?;
+                write!(f, "{} ", "^".repeat(underline_length))?;
                 write!(f, "{}", self.error)
             }
             _ => {
